@@ -217,7 +217,9 @@ pub fn book_case_strategy(cfg: GenCfg) -> BoxedStrategy<BookCase> {
         4u32..1000,
         if wide {
             // also clocks that start just below a power-of-two boundary, so that the history crosses it
-            prop_oneof![3 => 0u64..1000, 1 => any::<u64>().prop_map(|t| t >> 2), 2 => (proptest::sample::select(vec![8u32, 16, 24, 31, 32, 40, 48, 56, 62]), 1u64..4, 0u64..40).prop_map(|(p, m, d)| ((1u64 << p).saturating_mul(m).min(1 << 62)).saturating_sub(d))].boxed()
+            prop_oneof![3 => 0u64..1000, 1 => any::<u64>().prop_map(|t| t >> 2), 2 => (proptest::sample::select(vec![8u32, 16, 24, 31, 32, 40, 48, 56, 62]), 1u64..4, 0u64..40).prop_map(|(p, m, d)| ((1u64 << p).saturating_mul(m).min(1 << 62)).saturating_sub(d)),
+                // the very end of the clock's range (the interpreter keeps histories with clock discipline 2^20 below it)
+                1 => (0u64..6).prop_map(|d| u64::MAX - d)].boxed()
         } else {
             (0u64..1000).boxed()
         },
